@@ -43,6 +43,7 @@ type Target struct {
 	Env     map[string]EnvSpec `json:"env,omitempty"`
 	Skip    []string           `json:"skip,omitempty"` // statements whose text starts with one of these are ignored (logging, hashing, error plumbing)
 	Option  bool               `json:"option,omitempty"` // fragment: a bare return inside it yields None, falling through yields Some outputs
+	IfCond  string             `json:"ifcond,omitempty"` // translate the condition of the (first) if statement of the function whose condition reads exactly so
 	Doc     string             `json:"doc,omitempty"`
 }
 
@@ -66,6 +67,7 @@ type gen struct {
 	envOrd  []string
 	defs    map[string][]param // generated definitions so far -> parameter list
 	retType string
+	consts  map[string]string // package-level integer constants
 }
 
 func fail(pos token.Position, f string, a ...any) {
@@ -158,6 +160,9 @@ func (g *gen) expr(e ast.Expr) (string, string) {
 		}
 		if c, ok := g.vars[x.Name]; ok {
 			return x.Name, c
+		}
+		if v, ok := g.consts[x.Name]; ok {
+			return v, "untyped"
 		}
 		fail(pos, "unknown identifier %s", x.Name)
 	case *ast.SelectorExpr:
@@ -789,6 +794,26 @@ func main() {
 		if fd.Recv != nil && len(fd.Recv.List[0].Names) == 1 {
 			g.recv = fd.Recv.List[0].Names[0].Name
 		}
+		g.consts = map[string]string{}
+		for _, pf := range pkgFiles[dir] {
+			for _, d := range pf.Decls {
+				gd, ok := d.(*ast.GenDecl)
+				if !ok || gd.Tok != token.CONST {
+					continue
+				}
+				for _, sp := range gd.Specs {
+					vs, ok := sp.(*ast.ValueSpec)
+					if !ok || len(vs.Names) != len(vs.Values) {
+						continue
+					}
+					for i, n := range vs.Names {
+						if lit, ok := vs.Values[i].(*ast.BasicLit); ok && lit.Kind == token.INT {
+							g.consts[n.Name] = strings.ReplaceAll(lit.Value, "_", "")
+						}
+					}
+				}
+			}
+		}
 		// receiver struct fields with a supported type
 		if t.Recv != "" {
 			for _, pf := range pkgFiles[dir] {
@@ -836,10 +861,12 @@ func main() {
 					fparams = append(fparams, param{n.Name, c})
 				}
 			}
-			if fd.Type.Results == nil || len(fd.Type.Results.List) != 1 {
-				fail(fset.Position(fd.Pos()), "exactly one result expected")
+			if t.IfCond == "" {
+				if fd.Type.Results == nil || len(fd.Type.Results.List) != 1 {
+					fail(fset.Position(fd.Pos()), "exactly one result expected")
+				}
+				g.retType = g.class(fd.Type.Results.List[0].Type)
 			}
-			g.retType = g.class(fd.Type.Results.List[0].Type)
 		} else {
 			if fb := g.findFragment(body, t.From); fb != nil {
 				body = fb
@@ -864,7 +891,32 @@ func main() {
 			}
 		}
 		var term string
-		if t.From == "" {
+		if t.IfCond != "" {
+			var found ast.Expr
+			ast.Inspect(fd.Body, func(n ast.Node) bool {
+				if is, ok := n.(*ast.IfStmt); ok && found == nil && g.text(is.Cond) == t.IfCond {
+					found = is.Cond
+				}
+				return found == nil
+			})
+			if found == nil {
+				fail(fset.Position(fd.Pos()), "no if statement with condition %q in %s", t.IfCond, t.Func)
+			}
+			fparams = nil
+			g.vars = map[string]string{}
+			for _, fr := range t.Free {
+				n, c := splitPC(fr)
+				g.vars[n] = c
+				fparams = append(fparams, param{n, c})
+			}
+			e, c := g.expr(found)
+			if c != "bool" {
+				fail(fset.Position(found.Pos()), "condition of class %s", c)
+			}
+			term = e
+			retTypes[t.Name] = "bool"
+			body = []ast.Stmt{&ast.ExprStmt{X: found}}
+		} else if t.From == "" {
 			term = g.stmts(body, 1, func() string {
 				fail(fset.Position(fd.End()), "control reaches the end of %s without a return", t.Func)
 				return ""
@@ -908,7 +960,9 @@ func main() {
 		}
 		defs[t.Name] = ps
 		var src bytes.Buffer
-		if t.From == "" {
+		if t.IfCond != "" {
+			src.WriteString("if " + t.IfCond + " { ... }")
+		} else if t.From == "" {
 			printer.Fprint(&src, fset, fd)
 		} else {
 			for _, s := range body {
